@@ -449,6 +449,14 @@ void DOMParentNode::normalize()
             next = kid; // Don't advance; there might be another.
         }
 
+        // Nothing (more) to merge it with: a Text node that is empty is
+        // not part of a normalized tree either (not released, see above)
+        else if (kid->getNodeType() == DOMNode::TEXT_NODE &&
+                 ((DOMTextImpl *) kid)->getLength() == 0)
+        {
+            removeChild(kid);
+        }
+
         // Otherwise it might be an Element, which is handled recursively
         else
             if (kid->getNodeType() == DOMNode::ELEMENT_NODE)
